@@ -38,7 +38,7 @@ Print Assumptions C17_exact_after_any_evaluations.
 (** … and after histories that also edit values, formulas and references
     (under the hypotheses of C02) *)
 Theorem C17_exact_after_any_history : forall fuel cells refs maxd ops xs st i k st',
-  defs_ok cells -> refn_ok (init cells refs maxd) -> ops_ok2 fuel (init cells refs maxd) ops ->
+  refn_ok (init cells refs maxd) -> ops_ok2 fuel (init cells refs maxd) ops ->
   run fuel (init cells refs maxd) ops = (xs, st) -> no_fuel_out xs -> s_reent st = false ->
   eval_top fuel st i = (Err k, st') -> k <> KDeep -> lookup_cell (s_cells st) (fst i) <> None ->
   forall g rc cc, spec_chain g (defs_of st) (input_data st) i = (rc, cc) -> rc <> OutOfFuel ->
